@@ -115,6 +115,9 @@ def transitions(obj, join_preds):
         from hpl.types import DataType
 
         out.append(('replace_var_reference(k -> primitive @w)', lambda: [obj.replace_var_reference('k', A.HplVarReference('@w').cast(DataType.PRIMITIVE))]))
+        out.append(('replace_var_reference(k -> "s")', lambda: [obj.replace_var_reference('k', A.HplLiteral('"s"', '"s"'))]))
+        out.append(('replace_var_reference(k -> True)', lambda: [obj.replace_var_reference('k', A.HplLiteral.true())]))
+        out.append(('replace_var_reference(k -> 1)', lambda: [obj.replace_var_reference('k', A.HplLiteral('1', 1))]))
         out.append(('replace_var_reference(k -> primitive fld)', lambda: [obj.replace_var_reference('k', A.HplFieldAccess(A.HplThisMessage(), 'fld').cast(DataType.PRIMITIVE))]))
     if k == 'pred':
         out.append(('negate', lambda: [obj.negate()]))
@@ -215,6 +218,18 @@ def run(unit):
             for u in uses:
                 texts += [f'forall i in {d}: {u}', f'exists i in {d}: ({weak[0]} and {u})', f'forall i in {d}: ({u} and {weak[1]})', f'exists i in {d}: ({weak[1]} and ({weak[0]} and {u}))']
         texts += [absyn.expr_text(t) for _d, t in sigmatrix.invalid_cases()]
+        # properties whose event refers to a field once directly and once through its own alias, at disjoint types
+        ptexts = []
+        for a, b_ in (('@M.x > 0', 'not x'), ('xs[@M.i + 1] > 0', 'i and p'), ('x in [0 to @M.k]', 'not k'), ('abs(@M.v) > 0', 'not v'), ('forall j in @M.zs: @j > 0', 'zs > 0')):
+            for cond in (f'{a} and {b_}', f'{b_} and {a}'):
+                ptexts.append(f'globally: no t as M {{ {cond} }}')
+                ptexts.append(f'after s: (u or t as M {{ {cond} }}) causes w')
+        for text in ptexts:
+            r.count('evaluations')
+            st, obj = impl.try_parse('prop', text)
+            r.outcomes[f'illtyped:{st}'] += 1
+            if st == 'ok':
+                explore(obj, f'parse_property({text})', r, 1, seen)
         texts += ['x > 0 and x = y and x = "a"', 'x and (x = y) and x > 0', 'not x and x in {y} and len(x) > 0', '1 = "a"', '(x + 1) = "a" or p', 'len(xs) = True']
         for text in texts:
             r.count('evaluations')
@@ -232,6 +247,7 @@ def run(unit):
             '(@k = @j) and xs[@k] > 0', 'xs[@k] > 0 and (@k = @j)', '@k in {@j} and xs[@k] = y', '@k = @j and abs(@k) > 0', 'abs(@k) > 0 and @k != @j',
             '@k = y and (@k + 1 > 0)', '(@k + 1 > 0) and @k = y', 'x in [0 to @k] and @k = @j', '@k = @j and (forall i in [0 to @k]: @i > 0)',
             'bool(@k) and @k > 0', '@k > 0 and str(@k) = s', '{@k, @j} = {1} or @k = @j', 'len({@k}) > 0 and -@k < 0',
+            'forall i in [1 to 3]: (@i = @k)', 'exists i in {1, 2}: (@k = @i and @i > 0)', 'forall i in {"a"}: (@i = @k or @k = s)', '@k = @j and (exists i in [0 to 2]: @i != @k)',
         ]
         for text in texts:
             r.count('evaluations')
